@@ -416,6 +416,74 @@ func (c13) Run(c core.Case) core.Outcome {
 				}
 			}
 		}
+		// several diagrams in one run: a project application with one sequence-diagram endpoint per start
+		// (one of them with an endpoint-level blackbox); each diagram must be identical to the one generated
+		// from a project that holds only that endpoint
+		sum := 0
+		for _, x := range idx {
+			sum += x
+		}
+		if sum%3 == 0 {
+			mkProj := func(only int) *sysl.Module {
+				pm := &sysl.Module{Apps: map[string]*sysl.Application{}}
+				for k, v := range m.Apps {
+					pm.Apps[k] = v
+				}
+				proj := &sysl.Application{Name: &sysl.AppName{Part: []string{"Proj"}}, Endpoints: map[string]*sysl.Endpoint{}}
+				for s := 0; s < n; s++ {
+					if only >= 0 && only != s {
+						continue
+					}
+					ep := &sysl.Endpoint{Name: fmt.Sprintf("d%d", s), Stmt: []*sysl.Statement{{Stmt: &sysl.Statement_Call{Call: &sysl.Call{
+						Target: &sysl.AppName{Part: []string{cs.Dist[s]}}, Endpoint: c13EpName(s)}}}}}
+					if s == 1 {
+						bbTarget := cs.Dist[0] + " <- " + c13EpName(0)
+						ep.Attrs = map[string]*sysl.Attribute{"blackboxes": {Attribute: &sysl.Attribute_A{A: &sysl.Attribute_Array{Elt: []*sysl.Attribute{
+							{Attribute: &sysl.Attribute_A{A: &sysl.Attribute_Array{Elt: []*sysl.Attribute{{Attribute: &sysl.Attribute_S{S: bbTarget}}, {Attribute: &sysl.Attribute_S{S: "note"}}}}}}}}}}}
+					}
+					proj.Endpoints[ep.Name] = ep
+				}
+				pm.Apps["Proj"] = proj
+				return pm
+			}
+			run := func(pm *sysl.Module) (res map[string]string, crash string) {
+				defer func() {
+					if r := recover(); r != nil {
+						crash = fmt.Sprint(r)
+					}
+				}()
+				lg := logrus.New()
+				lg.SetOutput(io.Discard)
+				res, err := sequencediagram.DoConstructSequenceDiagrams(&cmdutils.CmdContextParamSeqgen{AppsFlag: []string{"Proj"}, Output: "%(epname)", EndpointFormat: "%(epname)", AppFormat: "%(appname)"}, pm, lg)
+				if err != nil {
+					crash = "error: " + err.Error()
+				}
+				return res, crash
+			}
+			all, crash := run(mkProj(-1))
+			describe := func() string {
+				var b strings.Builder
+				for i := 0; i < n; i++ {
+					fmt.Fprintf(&b, "%s <- %s: {%s} ", cs.Dist[i], c13EpName(i), strings.ReplaceAll(bodies[idx[i]], "\n", "; "))
+				}
+				return "model " + b.String()
+			}
+			if crash != "" {
+				o.Class, o.Sig = "violation", "multi|"+core.MaskMsg(crash)
+				o.Violation = describe() + "project with one diagram endpoint per start (d1 with a blackbox on the first endpoint): " + crash
+				return false
+			}
+			for s := 0; s < n; s++ {
+				one, crash := run(mkProj(s))
+				diagrams += 2
+				name := fmt.Sprintf("d%d", s)
+				if crash != "" || one[name] != all[name] {
+					o.Class, o.Sig = "violation", "multi-differs"
+					o.Violation = fmt.Sprintf("%sproject with one diagram endpoint per start (d1 with a blackbox on %s <- %s): diagram %s differs from the diagram of a project holding only that endpoint: %s %s", describe(), cs.Dist[0], c13EpName(0), name, firstDiff(one[name], all[name]), crash)
+					return false
+				}
+			}
+		}
 		return true
 	}
 	rec = func(k int) bool {
